@@ -198,6 +198,9 @@ Definition do_def_var (f : filest) (nm : list byte) (t : Z) (dimids : list Z)
   else match find_var h nm with
        | Some _ => Some (f, NC_ENAMEINUSE, [TSkip])
        | None =>
+           (* ncmpio_NC_var_shape64: no variable may exceed X_INT64_MAX - 3 bytes, whatever the format *)
+           if negb (check_vlen (xlen_type t) (map (dim_size (h_dims h)) dimids) (NC_MAX_INT64 - 3))
+           then Some (f, NC_EVARSIZE, [TSkip]) else
            let v := mkvar nm dimids [] t 0 (negb (f_fill f)) in
            let h' := mkhdr fmt (h_numrecs h) (h_dims h) (h_gatts h) (h_vars h ++ [v]) in
            Some (upd_hdr f h', NC_NOERR, [TZ (Zlen (h_vars h))])
@@ -690,7 +693,8 @@ Definition do_open (w : world) (slot mode : Z) : option (world * list obs) :=
   if negb (dk_exists d) then
     Some (set_hints (set_ids w (zupd (w_ids w) slot (-1))) no_align, same_all w NC_ENOENT [TSkip])
   else
-    match decode (dk_read d 0 (dk_size d)) with
+    (* headers of the files used here are far below 1 MiB; do not enumerate sparse data *)
+    match decode (dk_read d 0 (Z.min (dk_size d) 1048576)) with
     | None => None
     | Some dc =>
         let h := dc_hdr dc in
